@@ -73,6 +73,22 @@ theorem closed_subset (m : Modes) (g : Bool) (fl : Flags) (rs : List Rule) (hsat
     · exact hS x h1
     · exact hsat r (by simp) (hS _ h1) h2 x h3
 
+theorem runRules_nil (m : Modes) (g : Bool) (rs : List Rule) : runRules rs m g [] = [] := by
+  induction rs with
+  | nil => rfl
+  | cons r rs ih => simp only [runRules, List.foldl_cons, applyRule, List.contains_nil, Bool.false_and, Bool.false_eq_true, if_false] at *; exact ih
+
+/-- with no feature requested nothing aborts -/
+theorem resolve_empty (sh : Shape) (m : Modes) : ∃ r, resolve sh [] m = .ok r := by
+  have hab : ∀ (mm : Modes), aborts.find? (abortFires mm sh.gapless []) = none := by
+    intro mm; rw [List.find?_eq_none]; intro a _; simp [abortFires]
+  unfold resolve resolveWith
+  rw [hab m]
+  simp only [resolveAuto, runRules_nil]
+  have : autoFlags sh [] m = [] := by simp [autoFlags]
+  rw [this, hab]
+  exact ⟨_, rfl⟩
+
 theorem Modes.mem_all (m : Modes) : m ∈ Modes.all := by
   obtain ⟨a, b, c, d⟩ := m
   cases a <;> cases b <;> cases c <;> cases d <;> decide
